@@ -333,11 +333,14 @@ def check_variant(ctx, tf, vname, raw_ts, ref, desc, eager0):
     if is_lazy:
         acc, runs, bad_off = {}, {}, False
         try:
-            # a first pass over the file-level stream that is given up after one chunk must not disturb the next pass
+            # a first pass over the file-level stream that is given up after two chunks must not disturb the next pass
             try:
-                next(tf.data_chunks())
+                it_ = tf.data_chunks()
+                next(it_)
+                next(it_)
             except StopIteration:
                 pass
+            it_ = None
             stream_chunks = list(tf.data_chunks()) if (len(ref) % 2) else tf.data_chunks()     # half of the files: collected first, inspected afterwards
             ctx.count('path:file.data_chunks.collected' if isinstance(stream_chunks, list) else 'path:file.data_chunks.streamed')
             for chunk in stream_chunks:
